@@ -281,7 +281,8 @@ class AbstractFeatureBasedAccountingMethod(AbstractAccountingMethod):
 
         if selected_acquired_lot_amount > ZERO and selected_acquired_lot:
             lot_candidates.clear_partial_amount(selected_acquired_lot)
-            if selected_acquired_lot_amount > taxable_event_amount:
-                self.add_selected_lot_to_heap(lot_candidates.acquired_lot_heap, selected_acquired_lot)
+            # Always keep the selected lot in the heap: how much of it is consumed is only known to the caller (e.g. earn-typed
+            # taxable events consume nothing). Exhausted lots have zero partial amount and are skipped when they are popped again.
+            self.add_selected_lot_to_heap(lot_candidates.acquired_lot_heap, selected_acquired_lot)
             return AcquiredLotAndAmount(acquired_lot=selected_acquired_lot, amount=selected_acquired_lot_amount)
         return None
